@@ -241,20 +241,31 @@ func VerifH_C03_upgrade_while_closing() {
 		w := newUpWorld()
 		var names []string
 		var ranks []int
+		reason := ""
 		for _, n := range lifeEvents {
 			n := n
-			w.sock.On(types.EventName(n), func(...any) {
+			w.sock.On(types.EventName(n), func(a ...any) {
 				names = append(names, n)
 				ranks = append(ranks, stateRank(w.sock.ReadyState()))
+				if n == "close" && len(a) > 0 {
+					reason, _ = a[0].(string)
+				}
 			})
 		}
 		cand := w.candidate()
-		w.send(1, false) // goes out on the pending poll
-		w.send(2, false) // buffered: polling is busy
+		buffered := verif.Bool()
+		if buffered {
+			w.send(1, false) // goes out on the pending poll
+			w.send(2, false) // buffered: polling is busy
+		} else {
+			// nothing buffered, but the old transport cannot finish closing by itself (a polling
+			// transport between two polls buffers the orderly close): the session stays 'closing'
+			w.ft.holdClose = true
+		}
 		before := verif.Bool()
 		if before {
 			w.sock.Close(false)
-			verif.Assert(w.sock.ReadyState() == "closing", "closing, waiting for the buffered data to drain")
+			verif.Assert(w.sock.ReadyState() == "closing", "closing, waiting for the buffered data to drain (or for the old transport to finish)")
 		}
 		w.sock.MaybeUpgrade(cand)
 		cand.OnPacket(probePing())
@@ -275,6 +286,7 @@ func VerifH_C03_upgrade_while_closing() {
 			}
 		}
 		verif.Assert(nclose == 1 && w.sock.ReadyState() == "closed", "the closing session closes exactly once")
+		verif.Assert(reason == "forced close", "and the close event carries the reason of its cause: the application's close")
 		if at >= 0 {
 			verif.Assert(at == len(names)-1, "nothing is emitted after the close event")
 		}
@@ -287,6 +299,8 @@ func VerifH_C03_upgrade_while_closing() {
 				n++
 			}
 		}
-		verif.Assert(n == 2, "the data buffered before the graceful close is handed to a transport exactly once")
+		if buffered {
+			verif.Assert(n == 2, "the data buffered before the graceful close is handed to a transport exactly once")
+		}
 	})
 }
